@@ -80,6 +80,50 @@ Proof.
   rewrite (dec_enc_extensions_block _ ex He E4). cbn [obind]. destruct h; reflexivity.
 Qed.
 
+(* the same for the server hello and, under its own handshake type, the library's hello retry request: every field - the single
+   cipher suite and the single compression method included - comes back *)
+Record sh_ok (h : server_hello) : Prop := {
+  sok_version : 0 <= sh_version h < 65536;
+  sok_suite : 0 <= sh_suite h < 65536;
+  sok_comp : 0 <= sh_compression h < 256;
+  sok_exts : Forall ext_ok (sh_extensions h)
+}.
+
+Lemma dec_server_hello_body_enc h sid ex :
+  sh_ok h -> zlen (sh_random h) = 32 -> enc_opaque 0 32 (sh_session_id h) = Some sid -> enc_extensions_block (sh_extensions h) = Some ex ->
+  dec_server_hello_body (enc_uint 2 (sh_version h) ++ sh_random h ++ sid ++ enc_uint 2 (sh_suite h) ++ enc_uint 1 (sh_compression h) ++ ex) = Some h.
+Proof.
+  intros [Hv Hs Hc He] Lr E1 E4. unfold dec_server_hello_body.
+  rewrite dec_enc_uint by (change (256 ^ Z.of_nat 2) with 65536; lia). cbn [obind].
+  assert (L32 : length (sh_random h) = 32%nat) by (unfold zlen in Lr; lia).
+  set (tl := sid ++ enc_uint 2 (sh_suite h) ++ enc_uint 1 (sh_compression h) ++ ex).
+  destruct (Nat.ltb_spec (length (sh_random h ++ tl)) 32); [rewrite app_length in *; lia|].
+  replace (firstn 32 (sh_random h ++ tl)) with (sh_random h) by (rewrite <- L32; rewrite firstn_app_exact; reflexivity).
+  replace (skipn 32 (sh_random h ++ tl)) with tl by (rewrite <- L32; rewrite skipn_app_exact; reflexivity).
+  unfold tl. rewrite (dec_enc_opaque 0 32 _ sid _ ltac:(lia) E1). cbn [obind].
+  rewrite dec_enc_uint by (change (256 ^ Z.of_nat 2) with 65536; lia). cbn [obind].
+  rewrite dec_enc_uint by (change (256 ^ Z.of_nat 1) with 256; lia). cbn [obind].
+  rewrite (dec_enc_extensions_block _ ex He E4). cbn [obind]. destruct h; reflexivity.
+Qed.
+
+Lemma dec_enc_server_hello h b s : sh_ok h -> enc_server_hello h = Some b -> dec_server_hello_typed 2 (b ++ s) = Some (h, s).
+Proof.
+  intros Hok. unfold enc_server_hello. destruct (Z.eqb_spec (zlen (sh_random h)) 32) as [Lr|]; cbn [negb]; [|discriminate].
+  destruct (enc_opaque 0 32 (sh_session_id h)) as [sid|] eqn:E1; cbn [obind]; [|discriminate].
+  destruct (enc_extensions_block (sh_extensions h)) as [ex|] eqn:E4; cbn [obind]; [|discriminate].
+  intros Eh. unfold dec_server_hello_typed. rewrite (dec_enc_handshake 2 _ b s ltac:(lia) Eh). cbn [obind].
+  rewrite (dec_server_hello_body_enc h sid ex Hok Lr E1 E4). reflexivity.
+Qed.
+
+Lemma dec_enc_hello_retry_request h b s : sh_ok h -> enc_hello_retry_request h = Some b -> dec_server_hello_typed 6 (b ++ s) = Some (h, s).
+Proof.
+  intros Hok. unfold enc_hello_retry_request. destruct (Z.eqb_spec (zlen (sh_random h)) 32) as [Lr|]; cbn [negb]; [|discriminate].
+  destruct (enc_opaque 0 32 (sh_session_id h)) as [sid|] eqn:E1; cbn [obind]; [|discriminate].
+  destruct (enc_extensions_block (sh_extensions h)) as [ex|] eqn:E4; cbn [obind]; [|discriminate].
+  intros Eh. unfold dec_server_hello_typed. rewrite (dec_enc_handshake 6 _ b s ltac:(lia) Eh). cbn [obind].
+  rewrite (dec_server_hello_body_enc h sid ex Hok Lr E1 E4). reflexivity.
+Qed.
+
 (* ---- model = specification ---------------------------------------------------------------------------- *)
 (* TlsRecord: what the model of TlsRecord.compose emits is the RFC 5246 6.2.1 TLSPlaintext encoding *)
 Lemma tls_record_model_is_spec ct ver frag b : compose_tls_record ((ct, ver), frag) = Ok b -> enc_record ct ver frag = Some b.
